@@ -54,6 +54,10 @@ impl<'a, const P: u128> SddBuilder<'a> for SemanticSddBuilder<'a, P> {
     }
 
     fn app_cache_get(&self, and: &SddAnd<'a>) -> Option<SddPtr<'a>> {
+        #[cfg(rsdd_verif)]
+        if crate::verif::buggify(crate::verif::Site::SemAppCacheForget) {
+            return None;
+        }
         let h = and.semantic_hash(&self.vtree, &self.map);
         match h.value() {
             0 => Some(SddPtr::PtrFalse),
@@ -217,6 +221,8 @@ impl<'a, const P: u128> SemanticSddBuilder<'a, P> {
         semantic_hash.value().hash(&mut hasher);
         let hash = hasher.finish();
         if let Some(sdd) = self.get_shared_sdd_ptr(semantic_hash, hash) {
+            #[cfg(rsdd_verif)]
+            crate::verif::probe(crate::verif::Probe::SemNodeFoundByHash);
             return Some(sdd);
         }
 
@@ -226,6 +232,8 @@ impl<'a, const P: u128> SemanticSddBuilder<'a, P> {
         semantic_hash.value().hash(&mut hasher);
         let hash = hasher.finish();
         if let Some(sdd) = self.get_shared_sdd_ptr(semantic_hash, hash) {
+            #[cfg(rsdd_verif)]
+            crate::verif::probe(crate::verif::Probe::SemNodeFoundByNegHash);
             return Some(sdd.neg());
         }
         None
